@@ -373,6 +373,9 @@ func (e *Exec) recordWitnesses() {
 	if wantSample && len(r.Samples) < 3 {
 		s := map[string]string{"_labels": strings.Join(e.labels, ","), "_trace_len": fmt.Sprint(len(e.trace))}
 		for k, v := range m {
+			if len(v) > 120 {
+				v = fmt.Sprintf("%s...(%d bytes)", v[:60], len(v))
+			}
 			s[k] = v
 		}
 		r.Samples = append(r.Samples, s)
